@@ -210,7 +210,15 @@ pub enum Op {
     RawGet { m: u8, k: KeySel, how: Lookup },
     // ---- map: phase movers and lazy operations
     Retain { m: u8, pred: Pred, mutate: Option<u32> },
-    DrainFilter { m: u8, pred: Pred, mutate: Option<u32>, consume: Consume },
+    DrainFilter {
+        m: u8,
+        pred: Pred,
+        mutate: Option<u32>,
+        consume: Consume,
+        /// fault: the n-th destructor of a removed value run by the collection panics
+        #[serde(default)]
+        drop_panic: Option<u32>,
+    },
     Drain { m: u8, consume: Consume },
     IntoIter { m: u8, consume: Consume, new_cap: usize },
     Reserve { m: u8, n: Arg },
